@@ -143,6 +143,10 @@ class Report:
 
 
 def discharge(ex, rep, name, goal, on_sat=None, timeout_ms=None, **kw):
+    return _discharge(ex, rep, name, goal, on_sat, timeout_ms, **kw)
+
+
+def _discharge(ex, rep, name, goal, on_sat=None, timeout_ms=None, **kw):
     """Prove ``goal`` on the current path of ``ex``; record; on sat call on_sat(model, env) -> (signature, description, inputs)."""
     from .explorer import model_env, DefaultEnv
     v = ex.prove(goal, timeout_ms=timeout_ms, **kw)
@@ -166,7 +170,7 @@ def discharge(ex, rep, name, goal, on_sat=None, timeout_ms=None, **kw):
 def discharge_all(ex, rep, name, goals, on_sat=None, timeout_ms=None, **kw):
     """One sliced query per goal (DESIGN 1.6); stops at the first sat/unknown of this obligation on this path."""
     for g in goals:
-        v = discharge(ex, rep, name, g, on_sat=on_sat, timeout_ms=timeout_ms, **kw)
+        v = _discharge(ex, rep, name, g, on_sat, timeout_ms, **kw)
         if v.status != "unsat":
             return v
     return None
